@@ -325,6 +325,8 @@ def t7_programs(tier):
 def explore(task):
     src, activators, once, evnames, internals, info, depth = task[:7]
     with_started = task[7] if len(task) > 7 else False
+    # task[8]: the events a step emits are fed back as input events, as RuntimeV2_x.process_events does
+    v2x.FEED_BACK[0] = bool(task[8]) if len(task) > 8 else False
     fixed = [("ext", n, {}) for n in evnames] + [("internal", n, a) for n, a in internals]
 
     def alphabet(state, node):
@@ -340,7 +342,10 @@ def explore(task):
 
     mon = Lifetime(activators, once)
     ex = Explorer(src, alphabet, monitors=[mon], depth=depth, max_states=60000)
-    ex.run()
+    try:
+        ex.run()
+    finally:
+        v2x.FEED_BACK[0] = False
     return v2x.result_of(ex, info)
 
 
@@ -354,6 +359,14 @@ def tasks(tier):
     for gen, depth in ((t4_programs, d[3] + 1), (t2_programs, d[1])):
         for src, act, once, evs, ints, info in gen(tier):
             out.append((src, act, once, evs[:3], ints, dict(info, started_events=True), depth, True))
+    # the shared-action / scope programs driven the way the event-processing API drives the interpreter: every emitted
+    # event (Start... / Stop... of actions, markers) comes back as an input event
+    for gen, depth in ((t2_programs, d[1]), (t5_programs, d[1]), (t4_programs, d[3])):
+        for src, act, once, evs, ints, info in gen(tier):
+            out.append((src, act, once, evs, ints, dict(info, emitted_events_fed_back=True), depth, False, True))
+    for i, (src, act, once, evs, ints, info) in enumerate(t1_programs(tier)):
+        if i % (6 if tier == "quick" else 2) == 0:
+            out.append((src, act, once, evs, ints, dict(info, emitted_events_fed_back=True), d[0], False, True))
     if tier == "thorough":
         for i, (src, act, once, evs, ints, info) in enumerate(t1_programs(tier)):
             if i % 4 == 0:
